@@ -59,6 +59,10 @@ struct Planned {
 enum Dest {
     Tap(usize, u32), // machine, slot
     Unknown,
+    /// an address nobody owns whose low `bits` bits equal those of tap (machine, slot)'s address
+    AliasOfTap(usize, u32, u32),
+    /// an address nobody owns whose low 48 bits equal those of the broadcast address
+    AliasOfBroadcast,
     BroadcastNone,
     BroadcastMac,
 }
@@ -109,7 +113,9 @@ impl Protocol for Probe {
                 *b = (i % 251) as u8;
             }
             let dest = match p.dest {
-                Dest::Tap(..) | Dest::Unknown => Some(mac.unwrap()),
+                Dest::Tap(..) | Dest::Unknown | Dest::AliasOfTap(..) | Dest::AliasOfBroadcast => {
+                    Some(mac.unwrap())
+                }
                 Dest::BroadcastNone => None,
                 Dest::BroadcastMac => Some(Network::BROADCAST_MAC),
             };
@@ -193,6 +199,10 @@ fn build_plan(cfg: &LinkCfg) -> Vec<Planned> {
                 push(Dest::Tap(m2, s2), mtu);
                 push(Dest::Tap(m2, s2), mtu + 1);
                 if m == 0 && slot == 0 {
+                    // addresses that no tap owns but that look like an owned one when narrowed
+                    push(Dest::AliasOfTap(m2, s2, 48), 10);
+                    push(Dest::AliasOfTap(m2, s2, 32), 10);
+                    push(Dest::AliasOfBroadcast, 10);
                     // oversize lengths whose low 16 bits look harmless
                     push(Dest::Tap(m2, s2), 65536);
                     push(Dest::Tap(m2, s2), 65536 + mtu.min(1500));
@@ -288,6 +298,8 @@ impl Scenario for LinkSc {
                     let mac = match p.dest {
                         Dest::Tap(m2, s2) => Some(macs[m2][s2 as usize]),
                         Dest::Unknown => Some(unknown_mac),
+                        Dest::AliasOfTap(m2, s2, bits) => Some(macs[m2][s2 as usize] | (1u64 << bits)),
+                        Dest::AliasOfBroadcast => Some(Network::BROADCAST_MAC | (1u64 << 48)),
                         _ => None,
                     };
                     (p.clone(), mac)
@@ -366,7 +378,7 @@ impl Scenario for LinkSc {
             let mut expect: Vec<(usize, u32)> = vec![];
             match p.dest {
                 Dest::Tap(m2, s2) => expect.push((m2, s2)),
-                Dest::Unknown => {}
+                Dest::Unknown | Dest::AliasOfTap(..) | Dest::AliasOfBroadcast => {}
                 Dest::BroadcastNone | Dest::BroadcastMac => {
                     for (m2, t2) in cfg.taps.iter().enumerate() {
                         for (s2, n2) in t2.iter().enumerate() {
